@@ -27,9 +27,8 @@ func H_C09_CliVerify() {
 	if vrt.Symbolic() {
 		env := &gobl.Envelope{Head: &head.Header{UUID: "u", Digest: &dsig.Digest{Algorithm: "sha256", Value: "d"}, Notes: "n"}}
 		signed := *env.Head
-		sig := &dsig.Signature{}
 		signer, other := &dsig.PublicKey{}, &dsig.PublicKey{}
-		vrt.BindSignature(sig, signer, &signed)
+		sig := vrt.NewSignature(signer, &signed).(*dsig.Signature)
 		env.Signatures = []*dsig.Signature{sig}
 		if tamperNotes {
 			env.Head.Notes = "m"
